@@ -149,7 +149,9 @@ func Alphabet(s *wire.Spec, fi int) []wire.Val {
 		return []wire.Val{{T: []uint16{1, 2, 46}}, {T: nil}, {T: []uint16{0}}, {T: []uint16{255}}, {T: []uint16{256}}, {T: []uint16{65535}}, {T: []uint16{1, 256, 65280}}, {T: []uint16{0, 1, 255, 256, 257, 65535}}, {T: []uint16{7, 8}}, {T: []uint16{248, 255}}}
 	case wire.Gateway:
 		return []wire.Val{{B: append([]byte{0x20, 0x01, 0x0d, 0xb8}, append(make([]byte, 11), 1)...), L: L("gw", "example"), Root: true},
-			{B: make([]byte, 16), L: nil, Root: true}, {B: bytes.Repeat([]byte{0xff}, 16), L: Names[5], Root: true}}
+			{B: make([]byte, 16), L: nil, Root: true}, {B: bytes.Repeat([]byte{0xff}, 16), L: Names[5], Root: true},
+			// an IPv4-mapped IPv6 address: as IPv6 gateway it is 16 octets on the wire and ::ffff:192.0.2.1 in text
+			{B: append(append(make([]byte, 10), 0xff, 0xff), 192, 0, 2, 1), L: L("gw", "example"), Root: true}}
 	case wire.Names:
 		return []wire.Val{{N: [][][]byte{L("rvs", "example")}}, {N: nil}, {N: [][][]byte{L("a"), nil, Names[5]}}}
 	case wire.Apl:
